@@ -156,12 +156,10 @@ def check(run, replay=None):
                 "cfg/allow/must_use, unknown sv:: attributes and attributes on receiver and parameters; each expanded by the real macro, "
                 "the re-emitted item compared token for token outside attributes and attribute by attribute with the property's list; "
                 "each input expanded twice in one process and once more in a second process; non-trivial = accepted input")
-    try:
-        text, info, *_ = translate.generate()
-        translate.write_gentables(text)
-        SV_NAMES = set(k for k, _ in info["sv_attr"])
-    except translate.TranslateError as e:
-        run.translator_error(str(e))
+    r = translate.regen_tables(run)
+    if r is not None and r[0].get("sv_attr"):
+        SV_NAMES = set(k for k, _ in r[0]["sv_attr"])
+    else:
         SV_NAMES = {"custom", "error", "messages", "msg", "override_entry_point", "attr", "msg_attr", "payload", "data", "features"}
     run.hygiene()
     run.prove("Props/C13", THEOREMS)
